@@ -2,6 +2,7 @@
 
 INP_LEN = 320
 CAP = {"quick": 900, "thorough": 3600}     # wall-clock cap per harness (s)
+MEM_GB_SOLO = 52                           # solo retry after an out-of-memory run
 MEM_GB = 24                                # RLIMIT_AS per harness process tree
 
 INST = [(0, "none"), (1, "none"), (1, "pull"), (1, "push"), (2, "none"), (2, "pull"), (2, "push"),
@@ -235,8 +236,8 @@ PLAN["C08"] = {
 PLAN["C05"] = {
     "quick": hs(["c05_can_pass_s1_pull", "c05_can_pass_s3_none"], unwind=8, stubs="alloc") +
              hs(["c05_passing_like_s3_none"], unwind=8, stubs="alloc+absmove") +
-             inst("c08_step", [(3, "none")], stubs="alloc+indicator") + hs(["c08_pass_s2_none"], unwind=8, stubs="alloc"),
-    "thorough": hs(["c05_can_pass_s%d_%s" % (a, b) for a, b in INST], unwind=8, stubs="alloc") +
+             inst("c08_step", [(3, "none")], stubs="alloc+indicator") + hs(["c08_pass_s2_none", "c08_place"], unwind=8, stubs="alloc"),
+    "thorough": hs(["c05_can_pass_s%d_%s" % (a, b) for a, b in INST] + ["c08_place"], unwind=8, stubs="alloc") +
                 hs(["c05_passing_like_s3_%s" % k for k in ("none", "pull", "push")], unwind=8, stubs="alloc+absmove") +
                 inst("c08_step", [(3, "none"), (3, "pull"), (3, "push")], stubs="alloc+indicator", cap=5400) +
                 hs(["c08_pass_s%d_%s" % (a, b) for a, b in PASS6], unwind=8, stubs="alloc") +
@@ -284,7 +285,7 @@ def c19(insts, parts, **kw):
 
 
 PLAN["C19"] = {
-    "quick": c19([(0, "none"), (2, "push")], ["lists", "queries"]) + c19([(1, "pull"), (3, "none")], ["apply", "pass"]) +
+    "quick": c19([(0, "none"), (2, "push"), (3, "pull")], ["lists", "queries"]) + c19([(1, "pull"), (3, "none")], ["apply", "pass"]) +
              hs(["c19_setup_queries", "c19_setup_place"], unwind=8, stubs="alloc", mode="full") + hs(["c19_mbts_k4"], unwind=6, stubs="alloc", mode="full"),
     "thorough": c19(INST, ["lists", "queries", "apply", "pass"], cap=5400) +
                 hs(["c19_setup_queries", "c19_setup_place"], unwind=8, stubs="alloc", mode="full") + hs(["c19_mbts_k4"], unwind=6, stubs="alloc", mode="full") +
@@ -308,3 +309,12 @@ PLAN["TMP"] = {
 for j in PLAN["TMP"]["quick"]:
     if j["h"].startswith("c19") or j["h"].startswith("c16"):
         j["mode"] = "full"
+
+
+# ---- after the concrete-history change every take_action harness runs in 15-70 s: the quick tier
+# ---- of these families covers all 10 (step x pending) instances (a seeded change that needs
+# ---- step 3 + pending pull was missed by the 4-instance quick tier)
+for _p in ("C02", "C03", "C10", "C12", "C13", "C14"):
+    PLAN[_p]["quick"] = list(PLAN[_p]["thorough"])
+    PLAN[_p]["outside"] = PLAN[_p]["outside"].replace("quick tier: only 3 of the 10 (step x pending) instances; ", "").replace(
+        "quick tier: 3 of 10 take_action instances", "nothing inside the stated bounds").replace("quick tier: 3 of 10 instances", "nothing inside the stated bounds")
